@@ -38,10 +38,13 @@ def run(m, chk):
         "Static discharge of structural clauses of C14: knot_clean / degree_clean repeat the tolerance-guarded removal until it is refused (shrink-until-refused loop, only ValueError swallowed), for every "
         "interior knot; clean calls both on every path; the tolerance reaches every gate through every call site (ARG-FLOW); the gate itself (C05) holds. Minimality, idempotence and uniqueness are not decided."
     )
-    chk.decides = ["UNTIL-REFUSED", "ONLY-VALUEERROR", "ALL-KNOTS", "clean calls both", "ARG-FLOW(tolerance)", "GATE-TOL", "N"]
+    chk.decides = ["UNTIL-REFUSED", "ONLY-VALUEERROR", "ALL-KNOTS", "clean calls both", "ARG-FLOW(tolerance)", "GATE-TOL", "N", "WEIGHT-HOMOG (the fit behind every removal keeps rational control points of degree 0 in the weights)"]
     chk.not_decided = ["minimality / uniqueness of the cleaned representation", "idempotence as values"]
     until_refused(r, chk, C + "knot_clean", "knot_remove")
     until_refused(r, chk, C + "degree_clean", "degree_decrease")
+    from .homog import weight_homog
+
+    weight_homog(r, chk, ["curves.Curve.fit_curve", "curves.BaseCurve.update"])
     # every interior knot
     ctx = r.root(C + "knot_clean")
     fors = [n for n in r.stmt_nodes(ctx) if n.kind == "for" and any(c.cfgnode in ctx.cfg.reachable(n.id, exc=False) for c in r.calls_in(ctx, ".knot_remove"))]
